@@ -696,7 +696,7 @@ fn merge_char_attributions(
 
 // ---------------------------------------------------------------- transform_attributions_to_final
 /// stand-ins: the tracker (its update_attributions is proved piecewise in the C16 units; here only its result is named) and the error type
-pub struct AttributionTracker { pub _opaque: () }
+#[verifier::external_body] pub struct AttributionTracker { _o: () }
 pub enum GitAiError { Generic(String) }
 /// rule O1 on the path `crate::authorship::attribution_tracker::AttributionTracker`
 pub type TrackerT = AttributionTracker;
@@ -763,7 +763,7 @@ fn transform_attributions_to_final(
 //#end
 
 // ---------------------------------------------------------------- the per-file merge step of merge_attributions_favoring_first
-pub struct LineAttribution { pub _opaque: () }
+#[verifier::external_body] pub struct LineAttribution { _o: () }
 pub uninterp spec fn line_attrs_of(attrs: Seq<Attribution>, content: Seq<u8>) -> Seq<LineAttribution>;
 /// rule O1 on the path `crate::authorship::attribution_tracker::attributions_to_line_attributions` (dominant author per line; units
 /// dominant / projection of C16); here only named
